@@ -88,6 +88,7 @@ pub fn decode_script(data: &[u8]) -> Option<SetScript> {
         let root_kind = u.int_in_range(0..=3u8)?;
         let root = cellspec(&mut u, 2, 29)?;
         let perm_seed: u64 = u.arbitrary()?;
+        let deep: bool = u.int_in_range(0..=3u8)? == 0;
         let n_over = u.int_in_range(0..=6usize)?;
         let mut overlaps = Vec::new();
         for _ in 0..n_over {
@@ -101,9 +102,9 @@ pub fn decode_script(data: &[u8]) -> Option<SetScript> {
         // the rest of the input drives the subdivision script
         let mut ops = Vec::new();
         while !u.is_empty() && ops.len() < 60 {
-            ops.push((u.arbitrary()?, u.int_in_range(0..=8u8)?));
+            ops.push((u.arbitrary()?, u.int_in_range(0..=9u8)?));
         }
-        Ok(SetScript { root_kind, root, ops, overlaps, dups, perm_seed })
+        Ok(SetScript { root_kind, root, ops, overlaps, dups, perm_seed, deep })
     })();
     r.ok()
 }
